@@ -14,7 +14,7 @@ import (
 func init() {
 	Register(&Property{
 		ID: "C11",
-		Explanation: "Decides the two structural halves of 'a configuration that type-checks cannot fail at check time': (R11.1) every AST node kind and operator the parser can construct has a case in every dispatch of the check engine (no 'not implemented' for parsed configurations); (R11.2) every AST field that the engine later consumes as a relation or namespace name has its deferred type check registered where the node is built, on the token the field was taken from (computed subject set and traverse relation -> relation exists in the current namespace; traverse target relation -> every type of the traversed relation has it; subject types -> namespace exists / namespace has relation); (R11.3) parse runs the deferred checks whenever no syntax error occurred and runs every registered check; (R11.4) the deferred checks that quantify over all types of a relation have no early exit on success (every type is checked); (R11.6) a deferred check reads no parser field that parsing overwrites as it goes (the current namespace, the look-ahead) and writes nothing but the error list, so its outcome depends only on the finished parse; (R11.5) the relations collected for a class are only ever appended to, so no declared relation or permission is lost from the AST the engine evaluates. " +
+		Explanation: "Decides the two structural halves of 'a configuration that type-checks cannot fail at check time': (R11.1) every AST node kind and operator the parser can construct has a case in every dispatch of the check engine (no 'not implemented' for parsed configurations); (R11.2) every AST field that the engine later consumes as a relation or namespace name has its deferred type check registered where the node is built, on the token the field was taken from (computed subject set and traverse relation -> relation exists in the current namespace; traverse target relation -> every type of the traversed relation has it; subject types -> namespace exists / namespace has relation); (R11.3) parse runs the deferred checks whenever no syntax error occurred and runs every registered check; (R11.4) the deferred checks that quantify over all types of a relation have no early exit on success (every type is checked); (R11.8) the expression-parsing functions return nil only after an error was recorded (by them, by a failed match, or by the function of the family whose nil result they pass on), so no permission is dropped silently; (R11.7) the parser never wraps a possibly-nil pointer into an AST interface (a typed nil passes every '== nil' test and is dereferenced by the engine at check time); (R11.6) a deferred check reads no parser field that parsing overwrites as it goes (the current namespace, the look-ahead) and writes nothing but the error list, so its outcome depends only on the finished parse; (R11.5) the relations collected for a class are only ever appended to, so no declared relation or permission is lost from the AST the engine evaluates. " +
 			"Not decided: that the type checker's rule for SubjectSet<T,R>-typed traversals equals what the engine evaluates (a semantic comparison of two algorithms; known to differ, see DESIGN.md F14).",
 		Assumptions: []string{"the slot table field -> required check constructor (DESIGN.md R11.2) is the specification of which check guards which field"},
 		Run:         runC11,
@@ -28,6 +28,8 @@ func runC11(c *Ctx) {
 	r114(c)
 	r115(c)
 	r116(c)
+	r117(c)
+	r118(c)
 }
 
 // itemOfVal: v is <item>.Val ; returns the origin of the item value.
@@ -530,5 +532,294 @@ func r116(c *Ctx) {
 	}
 	if n < 4 {
 		r.Undecide("R11.6", "", "deferred checks", "", fmt.Sprintf("%d found (floor 4)", n))
+	}
+}
+
+// ---- R11.7 no nil pointer is wrapped into an AST interface ------------------------------------------
+
+// r117: an ast.Child that holds a nil *T is not == nil, so every "nothing was
+// parsed" test on the interface passes it on, and the engine's type switch then
+// dereferences it at check time. Every conversion of a pointer to an AST
+// interface in the parser converts a pointer that cannot be nil: a fresh
+// allocation, or a value tested against nil on the way.
+func r117(c *Ctx) {
+	p, r := c.P, c.R
+	n := 0
+	isASTIface := func(t types.Type) bool {
+		nn := core.NamedOf(t)
+		if nn == nil || nn.Obj().Pkg() == nil || nn.Obj().Pkg().Path() != astPkg {
+			return false
+		}
+		_, ok := nn.Underlying().(*types.Interface)
+		return ok
+	}
+	for _, fn := range p.KetoFuncs(schemaRel) {
+		core.Instrs(fn, func(b *ssa.BasicBlock, _ int, ins ssa.Instruction) {
+			mi, ok := ins.(*ssa.MakeInterface)
+			if !ok || !isASTIface(mi.Type()) {
+				return
+			}
+			if _, isPtr := mi.X.Type().Underlying().(*types.Pointer); !isPtr {
+				return
+			}
+			n++
+			var nonNil func(v ssa.Value, d int) bool
+			nonNil = func(v ssa.Value, d int) bool {
+				if d > 5 {
+					return false
+				}
+				switch x := v.(type) {
+				case *ssa.Alloc, *ssa.FieldAddr, *ssa.IndexAddr, *ssa.MakeInterface:
+					return true
+				case *ssa.Phi:
+					for _, e := range x.Edges {
+						if !nonNil(e, d+1) {
+							return false
+						}
+					}
+					return true
+				case *ssa.Call:
+					// a constructor that only returns fresh allocations
+					if sc := x.Call.StaticCallee(); sc != nil && sc.Blocks != nil {
+						all := true
+						for _, bb := range sc.Blocks {
+							if ret, ok := bb.Instrs[len(bb.Instrs)-1].(*ssa.Return); ok && len(ret.Results) > 0 {
+								if _, fresh := ret.Results[0].(*ssa.Alloc); !fresh {
+									all = false
+								}
+							}
+						}
+						if all {
+							return true
+						}
+					}
+				}
+				// tested against nil on every path to the conversion (the same value, or another
+				// load of the same local variable with no store to it in between)
+				cellOf := func(x ssa.Value) *ssa.Alloc {
+					if u, ok := x.(*ssa.UnOp); ok && u.Op == token.MUL {
+						if al, ok := u.X.(*ssa.Alloc); ok {
+							return al
+						}
+					}
+					return nil
+				}
+				for _, cd := range core.CondsAt(b) {
+					op, cx, cy, ok := core.BinCmp(cd.V)
+					if !ok || !core.IsNilConst(cy) || !((op == token.NEQ && cd.True) || (op == token.EQL && !cd.True)) {
+						continue
+					}
+					if cx == v {
+						return true
+					}
+					if al := cellOf(v); al != nil && cellOf(cx) == al {
+						stored := false
+						for _, st := range core.CellStores(al) {
+							sb := st.Block()
+							if st.Parent() != fn || sb == cd.At || !cd.At.Dominates(sb) || !sb.Dominates(b) {
+								continue
+							}
+							if sb == b {
+								// only a store before the conversion matters
+								before := false
+								for _, i2 := range b.Instrs {
+									if i2 == ssa.Instruction(st) {
+										before = true
+										break
+									}
+									if i2 == ssa.Instruction(mi) {
+										break
+									}
+								}
+								if !before {
+									continue
+								}
+							}
+							stored = true
+						}
+						if !stored {
+							return true
+						}
+					}
+				}
+				return false
+			}
+			r.Check(nonNil(mi.X, 0), "R11.7", core.FuncName(fn), "pointer converted to "+types.TypeString(mi.Type(), func(*types.Package) string { return "ast" }), p.Pos(mi.Pos()),
+				"the pointer wrapped into the interface is a fresh allocation or was tested against nil",
+				"a pointer that can be nil is converted to an AST interface without a nil test: the interface is then not == nil, the 'nothing parsed' checks let it through, and the engine dereferences the nil node when a check reaches it (e.g. '!()')")
+		})
+	}
+	if n < 3 {
+		r.Undecide("R11.7", "", "pointer-to-AST-interface conversions in the parser", "", fmt.Sprintf("%d found (floor 3)", n))
+	}
+}
+
+// ---- R11.8 the expression parser gives up only with an error -----------------------------------------
+
+// r118: a nil result of the expression-parsing functions makes the caller stop
+// parsing the permission (and the rest of the class). If no error was recorded
+// the document is accepted with that permission silently missing. Every
+// `return nil` of these functions is therefore (a) preceded in its block, or in
+// the blocks that lead only to it, by a call that records an error, or (b)
+// control dependent on the failure of something that records one itself: a
+// nil result of another function of the family, a false result of
+// match/matchIf, the parser's fatal flag, or the nesting-depth guard.
+func r118(c *Ctx) {
+	p, r := c.P, c.R
+	pkgPath := core.KetoMod + "/" + schemaRel
+	isFamilyResult := func(t types.Type) bool {
+		if pt, ok := t.Underlying().(*types.Pointer); ok && core.IsNamed(pt.Elem(), astPkg, "SubjectSetRewrite") {
+			return true
+		}
+		return core.IsNamed(t, astPkg, "Child")
+	}
+	family := map[*ssa.Function]bool{}
+	for _, fn := range p.KetoFuncs(schemaRel) {
+		if fn.Parent() != nil || fn.Signature.Recv() == nil {
+			continue
+		}
+		res := fn.Signature.Results()
+		if res.Len() == 1 && isFamilyResult(res.At(0).Type()) && core.NamedOf(fn.Signature.Recv().Type()) != nil && core.NamedOf(fn.Signature.Recv().Type()).Obj().Name() == "parser" {
+			family[fn] = true
+		}
+	}
+	recordsError := func(ins ssa.Instruction) bool {
+		ci, ok := ins.(ssa.CallInstruction)
+		if !ok {
+			return false
+		}
+		if obj := core.CalleeObj(ci.Common()); obj != nil && obj.Pkg() != nil && obj.Pkg().Path() == pkgPath {
+			switch obj.Name() {
+			case "addFatal", "addErr":
+				return true
+			}
+		}
+		return false
+	}
+	n := 0
+	for fn := range family {
+		for _, b := range fn.Blocks {
+			if len(b.Instrs) == 0 {
+				continue
+			}
+			ret, ok := b.Instrs[len(b.Instrs)-1].(*ssa.Return)
+			if !ok || len(ret.Results) != 1 {
+				continue
+			}
+			// which predecessor edges deliver nil?
+			var nilFrom []*ssa.BasicBlock
+			switch x := ret.Results[0].(type) {
+			case *ssa.Const:
+				if x.IsNil() {
+					nilFrom = append(nilFrom, b)
+				}
+			case *ssa.Phi:
+				for i, e := range x.Edges {
+					if k, ok := e.(*ssa.Const); ok && k.IsNil() {
+						nilFrom = append(nilFrom, b.Preds[i])
+					}
+				}
+			case *ssa.UnOp:
+				// a load of the named result / a variable: judged where nil is stored -- not followed
+			}
+			for _, from := range nilFrom {
+				n++
+				okErr := false
+				// (a) an error-recording call in the block or in single-predecessor blocks leading to it
+				for cur, steps := from, 0; cur != nil && steps < 6; steps++ {
+					for _, ins := range cur.Instrs {
+						if recordsError(ins) {
+							okErr = true
+						}
+					}
+					if len(cur.Preds) != 1 {
+						break
+					}
+					cur = cur.Preds[0]
+				}
+				// (b) control dependence on a failure that records its own error
+				for _, cd := range core.CondsAt(from) {
+					v := cd.V
+					truth := cd.True
+					for i := 0; i < 3; i++ {
+						if u, ok := v.(*ssa.UnOp); ok && u.Op == token.NOT {
+							v, truth = u.X, !truth
+						} else {
+							break
+						}
+					}
+					if op, x, y, ok := core.BinCmp(v); ok {
+						// callee result == nil
+						if core.IsNilConst(y) && ((op == token.EQL && truth) || (op == token.NEQ && !truth)) {
+							var fromFamily func(v ssa.Value, d int) bool
+							fromFamily = func(v ssa.Value, d int) bool {
+								if d > 5 {
+									return false
+								}
+								switch z := v.(type) {
+								case *ssa.Call:
+									sc := z.Call.StaticCallee()
+									return sc != nil && family[sc]
+								case *ssa.MakeInterface:
+									return fromFamily(z.X, d+1)
+								case *ssa.ChangeInterface:
+									return fromFamily(z.X, d+1)
+								case *ssa.Phi:
+									for _, e := range z.Edges {
+										if !fromFamily(e, d+1) {
+											return false
+										}
+									}
+									return len(z.Edges) > 0
+								}
+								return false
+							}
+							if fromFamily(core.ValueOrigin(x), 0) || fromFamily(x, 0) {
+								okErr = true
+							}
+						}
+						// depth guard: depth <= 0 together with an addFatal is case (a); nothing here
+					}
+					if call, ok := v.(*ssa.Call); ok && !truth {
+						if obj := core.CalleeObj(&call.Call); obj != nil && (obj.Name() == "match" || obj.Name() == "matchIf" || obj.Name() == "matchPropertyAccess") {
+							okErr = true // a failed match has recorded the error
+						}
+					}
+					if u, ok := v.(*ssa.UnOp); ok && u.Op == token.MUL && truth {
+						if fa, ok := u.X.(*ssa.FieldAddr); ok {
+							if fv := fieldVarOf(fa); fv != nil && fv.Name() == "fatal" {
+								okErr = true
+							}
+						}
+					}
+				}
+				// the loop `for !p.fatal { ... }; return nil`: the return block is reached only when fatal is set
+				if !okErr {
+					for _, pr := range from.Preds {
+						if len(pr.Instrs) > 0 {
+							if ifi, ok := pr.Instrs[len(pr.Instrs)-1].(*ssa.If); ok {
+								if u, ok := ifi.Cond.(*ssa.UnOp); ok && u.Op == token.MUL {
+									if fa, ok := u.X.(*ssa.FieldAddr); ok {
+										if fv := fieldVarOf(fa); fv != nil && fv.Name() == "fatal" && pr.Succs[0] == from {
+											okErr = true
+										}
+									}
+								}
+							}
+						}
+					}
+				}
+				pos := p.Pos(ret.Pos())
+				if lp := lastPos(from); lp.IsValid() {
+					pos = p.Pos(lp)
+				}
+				r.Check(okErr, "R11.8", core.FuncName(fn), "nil result only with an error", pos,
+					"the nil result follows an error-recording call, a failed match, a nil result of the same family, or the fatal flag",
+					"the function returns nil on a path that records no error: the caller stops parsing the permission (and the rest of the class) and the document is accepted with the permission silently missing")
+			}
+		}
+	}
+	if n < 6 {
+		r.Undecide("R11.8", "", "nil returns of the expression parser", "", fmt.Sprintf("%d found (floor 6)", n))
 	}
 }
